@@ -314,9 +314,9 @@ where
                     return Err(RunError::Transport(e))
                 }
 
-                Selected::Transport(Ok(_))
-                | Selected::Handle(_)
-                | Selected::AbortFunctionCall(_) => {}
+                Selected::AbortFunctionCall(serial) => self.function_calls.abort(serial),
+
+                Selected::Transport(Ok(_)) | Selected::Handle(_) => {}
             }
         }
 
